@@ -8,7 +8,8 @@ LEVEL = "model_checking"
 RULE = ("records = real xgcm.padding.pad calls on face-connected grids: planar tables derived from oriented "
         "decompositions and random reciprocal pairings of edge slots over 2-6 faces, N 2..3, scalar and vector input, "
         "asymmetric widths 0..min(3,N) per axis, every rule on open edges, extra dims and a third non-face axis, any "
-        "dim order; non-trivial = distinct (link kinds present, vector?, widths pattern, rules) classes")
+        "dim order; non-trivial = distinct (link kinds present, vector?, widths pattern, rules) classes"
+        ' Also: tables in any insertion order with Python or numpy flags, components of different dtypes, earlier padding calls on the same Grid.')
 
 
 def face_grid(rng, N, nfaces, table, stagger=False, third=False, nextra=0):
